@@ -13,7 +13,7 @@ for pid in props:
           "quick_cmd":f"./check {pid} quick","thorough_cmd":f"./check {pid} thorough",
           "evidence_file":f"/verif/evidence/{pid}.json","replay_cmd_template":"./check --replay {path}",
           "engine":"govc",
-          "level_claimed":{"category":"proof","text":c["text"],"design_ref":c.get("design_ref","DESIGN.md §4 "+pid)},
+          "level_claimed":{"category":"proof","text":c["text"],"design_ref":c.get("design_ref","DESIGN.md §8.1 (as built), §4 "+pid+" (plan)")},
           "level_note":c["note"],
           "technique":c.get("technique","contract-based deductive verification: requires/ensures/loop invariants on the real Go functions, VCs generated from go/ssa and discharged by z3/cvc5")})
     else:
